@@ -1016,7 +1016,12 @@ func (cs *Contracts) loadFile(path, repo string) error {
 			reset()
 			i := strings.Index(l.rest, ":")
 			fw := Forward{Pkg: pkg, Type: strings.TrimSpace(l.rest[:i])}
-			for _, m := range strings.Split(l.rest[i+1:], ",") {
+			rest := l.rest[i+1:]
+			if j := strings.Index(rest, " props "); j >= 0 {
+				fw.Props = strings.Fields(rest[j+7:])
+				rest = rest[:j]
+			}
+			for _, m := range strings.Split(rest, ",") {
 				fw.Ifaces = append(fw.Ifaces, strings.TrimSpace(m))
 			}
 			cs.Forwards = append(cs.Forwards, fw)
